@@ -7,33 +7,9 @@ import (
 	"github.com/elastos/Elastos.ELA/common/config"
 	pg "github.com/elastos/Elastos.ELA/core/contract/program"
 	common2 "github.com/elastos/Elastos.ELA/core/types/common"
-	"github.com/elastos/Elastos.ELA/core/types/interfaces"
 	"github.com/elastos/Elastos.ELA/utils"
 	"github.com/elastos/Elastos.ELA/zzverif/nd"
 )
-
-// zzStTx: the deposit bookkeeping reads only type, id, inputs, outputs and
-// programs of a transaction (this package cannot import core/transaction).
-type zzStTx struct {
-	interfaces.Transaction
-	typ   common2.TxType
-	id    common.Uint256
-	ins   []*common2.Input
-	outs  []*common2.Output
-	progs []*pg.Program
-}
-
-func (t *zzStTx) TxType() common2.TxType     { return t.typ }
-func (t *zzStTx) Hash() common.Uint256       { return t.id }
-func (t *zzStTx) Inputs() []*common2.Input   { return t.ins }
-func (t *zzStTx) Outputs() []*common2.Output { return t.outs }
-func (t *zzStTx) Programs() []*pg.Program    { return t.progs }
-
-func zzStAmount(name string) common.Fixed64 {
-	v := common.Fixed64(nd.U64(name))
-	nd.Assume(uint64(v) <= 1<<60)
-	return v
-}
 
 // ZZ_C28_bookkeeping: one return-deposit transaction applied to the state
 // (returnDeposit, then processDeposit for its change outputs, then commit).
